@@ -788,6 +788,9 @@ class Fn:
             self._class_guard.add(key)
             try:
                 found = [n for n in _walk_scope(self.node.body) if e.id in _targets_of(n)]
+                # x4: besides `x = None` sentinels (an attribute of None is AttributeError here as well)
+                found = [b for b in found if not (isinstance(b, ast.Assign) and len(b.targets) == 1 and isinstance(b.targets[0], ast.Name)
+                                                  and isinstance(b.value, ast.Constant) and b.value.value is None)] or found
                 if len(found) == 1 and isinstance(found[0], (ast.Assign, ast.AnnAssign)):
                     st = found[0]
                     tgt = st.targets[0] if isinstance(st, ast.Assign) else st.target
@@ -3139,6 +3142,9 @@ class Fn:
         # x4: a local bound exactly once, by such a constructor call (`p = pathlib.PurePosixPath(x)` … `p.is_absolute()`)
         if isinstance(e, ast.Name) and e.id in self.locals and e.id not in self.params() and e.id not in self.bound_stack():
             binds = [n for n in _walk_scope(self.node.body) if e.id in _targets_of(n)]
+            # … other bindings may only be `<local> = None` (a sentinel: a method call on None is AttributeError in both worlds)
+            binds = [b for b in binds if not (isinstance(b, ast.Assign) and len(b.targets) == 1 and isinstance(b.targets[0], ast.Name)
+                                              and isinstance(b.value, ast.Constant) and b.value.value is None)]
             if len(binds) == 1 and isinstance(binds[0], (ast.Assign, ast.AnnAssign)) and binds[0].value is not None:
                 tgt = binds[0].targets[0] if isinstance(binds[0], ast.Assign) else binds[0].target
                 if isinstance(tgt, ast.Name) and (not isinstance(binds[0], ast.Assign) or len(binds[0].targets) == 1) \
@@ -3162,6 +3168,9 @@ class Fn:
         t = self.x3_table(r)
         if t is not None:
             return f'PyLic.tbl_has "{t}" {lv}'
+        if isinstance(r, ast.Name) and r.id not in self.locals and r.id not in self.bound_stack() and self.x3_fn_table(r.id) is not None:
+            get, _ = self.x3_fn_table_defs(r.id, 2)                      # x4: `k in TABLE` for a table of callables
+            return f"(do let __f ← {get} {lv}; pure (!(PyRt.isNone __f)))"
         if self.x3_is_dict_expr(r):
             return f"PyRt.dict_contains {self.val(r)} {lv}"
         if isinstance(r, ast.Name) and r.id not in self.locals and r.id not in self.bound_stack() and isinstance(self.globals.get(r.id), dict):
@@ -3300,6 +3309,15 @@ class Fn:
                 return self.expr(e.args[1])
             if hasattr(self, "owned2") and self.x3_ipf_arg(e) is not None and id(e) not in self._ipf_ok:
                 raise Unsupported("a call that updates a local in place inside a larger expression")
+        # x4: `TABLE[k](a, b)` on a module-level table of callables: the look-up (KeyError for a missing key), then the call
+        if isinstance(f, ast.Subscript) and isinstance(f.value, ast.Name) and f.value.id not in self.locals \
+                and f.value.id not in self.bound_stack() and not isinstance(f.slice, ast.Slice) and not kws \
+                and not any(isinstance(a, ast.Starred) for a in e.args) and self.x3_fn_table(f.value.id) is not None:
+            get, call = self.x3_fn_table_defs(f.value.id, len(e.args))
+            t = self.fresh("f")
+            key = self.val(f.slice)
+            args = "".join(" " + self.val(a) for a in e.args)
+            return False, f'(do let {t} ← {get} {key}; if PyRt.isNone {t} then throw "KeyError" else {call} {t}{args})'
         if isinstance(f, ast.Name) and f.id in self.locals and f.id not in self.bound_stack():
             tab = self.x3_local_fn_table(f.id)
             if tab is not None:
